@@ -380,3 +380,21 @@ def resolve_at(fnode, e, line=None, depth=0):
     if best is None:
         return e
     return resolve_at(fnode, best[0], best[1], depth + 1) if isinstance(best[0], ast.Name) else best[0]
+
+
+def statements_before(node, fnode):
+    """statements that are executed on every path from the entry of `fnode` to `node`: for every enclosing block, the statements
+    that precede (in that block) the statement leading to `node` -- compound statements among them are returned as they are (the caller
+    decides what a check nested in one of their branches is worth)"""
+    out = []
+    cur = node
+    p = getattr(cur, "_parent", None)
+    while p is not None:
+        for field in ("body", "orelse", "finalbody"):
+            block = getattr(p, field, None)
+            if isinstance(block, list) and cur in block:
+                out += block[:block.index(cur)]
+        if p is fnode:
+            break
+        cur, p = p, getattr(p, "_parent", None)
+    return out
